@@ -13,6 +13,8 @@ def explore(run, lean):
                          "constant, running backwards); rtc spy after every op, full spy, trace and both live streams compared with "
                          "the Lean model; the oracle compares the spy lines with the handlers' own invocation record")
     run.assumptions.append("at most rtcCap (250) handler calls per step; beyond that see the known findings")
+    ROUND6_RULE = '; scribbles of empty / falsy / non-text values; scribble oracle per step'
+    run.extra["rule"] += ROUND6_RULE
 
 
 def replay(case):
